@@ -5,5 +5,6 @@ for d in seeded/*/; do
   n=$(basename $d); p=${n:0:3}
   [ -f $d/check ] && p=$(cat $d/check)
   out=$(./runmut.sh $PWD/$d/patch.diff $p 2>&1 | tail -2 | tr '\n' ' ' | cut -c1-160)
+  [ -f $d/expect-held ] && out="$out (expected to hold: $(cat $d/expect-held))"
   echo "$n -> $p: $out"
 done
